@@ -1106,7 +1106,7 @@ PROPS = {
     "C06": {
         "property_modules": ["Zlink.Properties.C06"],
         "lean_modules": ["Zlink.Properties.C06"],
-        "theorems": ["C06.C06_owed", "C06.C06_all_oneway", "C06.C06_stops_on_transport_error", "C06.C06_one_write", "C06.C06_oracle", "C06.C06_parked_stream_poll_is_noop"],
+        "theorems": ["C06.C06_owed", "C06.C06_all_oneway", "C06.C06_stops_on_transport_error", "C06.C06_one_write", "C06.C06_oracle", "C06.C06_complete", "C06.C06_parked_stream_poll_is_noop"],
         "run": run_chain, "trusted_base": TB_COMMON,
         "assumptions": RX_ASSUME[1:] + [
             "what receive_reply makes of a frame (continuing reply / final reply / method error / general error) is a parameter `kind` of the stream model; the harness derives it from the frame's JSON and the reference receive",
